@@ -27,6 +27,10 @@ type node struct {
 }
 
 type field struct {
+	// TOnly + MapPath: the field exists on the target side only and is filled through
+	// `goverter:map <MapPath> <TName>` (a dotted source path through a nil-able pointer).
+	TOnly   bool
+	MapPath string
 	// Optional: a shape goverter may not support on the tree under test (arrays as targets);
 	// if goverter refuses the world it is rebuilt without the optional fields.
 	Optional bool
@@ -243,6 +247,26 @@ func (s *Spec) genStruct(depth int) *node {
 	}
 	s.structsAt = s.structsAt[:len(s.structsAt)-1]
 	if s.Prop == "C04" && s.rng.IntN(4) == 0 {
+		// dotted path mapping through a nil-able pointer: T.P = &<copy of> S.F.B0
+		inner := &node{Kind: "struct", ID: s.id()}
+		s.Structs[inner.ID] = inner
+		bt := []string{"string", "int", "int64"}[s.rng.IntN(3)]
+		inner.Fields = append(inner.Fields, &field{Name: "B0", TName: "B0", N: &node{Kind: "basic", Basic: bt}},
+			&field{Name: "B1", TName: "B1", N: &node{Kind: "slice", Elem: &node{Kind: "basic", Basic: "int"}}})
+		fi := len(n.Fields)
+		n.Fields = append(n.Fields, &field{Name: fmt.Sprintf("F%d", fi), TName: fmt.Sprintf("F%d", fi), N: &node{Kind: "ptr", Elem: inner}})
+		pk := "basic"
+		var pn *node = &node{Kind: "ptr", Elem: &node{Kind: "basic", Basic: bt}}
+		if s.rng.IntN(2) == 0 {
+			pn = &node{Kind: "basic", Basic: bt} // value target: nil intermediate yields the zero value?
+			pk = "value"
+		}
+		_ = pk
+		if pn.Kind == "ptr" {
+			n.Fields = append(n.Fields, &field{TOnly: true, MapPath: fmt.Sprintf("F%d.B0", fi), Name: fmt.Sprintf("P%d", fi), TName: fmt.Sprintf("P%d", fi), N: pn})
+		}
+	}
+	if s.Prop == "C04" && s.rng.IntN(4) == 0 {
 		// a named struct that is the SAME type on both sides (must still be deep-copied)
 		sh := s.genShared(0)
 		var fn *node = sh
@@ -339,6 +363,20 @@ func (s *Spec) gen(depth int, parent *node) *node {
 		if s.Prop == "C07" && r.IntN(5) == 0 {
 			k = s.leafNoMap()
 			s.KeyLeaf = true
+		}
+		if s.Prop == "C04" && r.IntN(5) == 0 {
+			// comparable keys that hold pointers: a pointer to, or a value of, a struct that
+			// is the same type on both sides ({H0 int; H1 *int})
+			ks := &node{Kind: "shared", ID: s.id()}
+			s.Shared[ks.ID] = ks
+			ks.Fields = []*field{
+				{Name: "H0", TName: "H0", N: &node{Kind: "basic", Basic: "int"}},
+				{Name: "H1", TName: "H1", N: &node{Kind: "ptr", Elem: &node{Kind: "basic", Basic: "int"}}},
+			}
+			k = ks
+			if r.IntN(2) == 0 {
+				k = &node{Kind: "ptr", Elem: ks}
+			}
 		}
 		return &node{Kind: "map", Key: k, Elem: s.gen(depth+1, nil)}
 	case 7:
@@ -525,6 +563,9 @@ func (s *Spec) TypesSource() string {
 				fmt.Fprintf(&b, "\tCalc%d int\n", id)
 			}
 			for _, f := range n.Fields {
+				if f.TOnly && side == "S" {
+					continue
+				}
 				name := f.Name
 				if side == "T" {
 					name = f.TName
@@ -607,6 +648,8 @@ func (s *Spec) methods(twin bool) []methodSpec {
 		var doc []string
 		for _, f := range n.Fields {
 			switch {
+			case f.TOnly:
+				doc = append(doc, fmt.Sprintf("goverter:map %s %s", f.MapPath, f.TName))
 			case f.MapFunc != "":
 				fn := f.MapFunc
 				if twin {
